@@ -225,7 +225,8 @@ def run_ob(ob):
         except kengine.Inconclusive as e:
             return {"harness": ob["harness"], "verdict": "ENCODER", "failed": [], "checks": [], "stubs": [],
                     "log_tail": str(e)}
-    return ob["fn"](**ob.get("kw", {}))
+    import sprops
+    return sprops.run_s(ob)
 
 
 RULE = ("one evaluation = one verification condition handed to the SAT/SMT solver (Kani: every check of the harness; "
